@@ -230,9 +230,8 @@ def gen_datetime(rng):
     elif r < 0.75:
         # around ISO-year boundaries: last / first week of a year
         y = rng.randint(1, 9999)
-        date = datetime.date(y, 1, 1) + datetime.timedelta(days=rng.randint(-7, 7))
-        if y == 1 and date.year != 1:
-            date = datetime.date(1, 1, 1)
+        o = datetime.date(y, 1, 1).toordinal() + rng.randint(-7, 7)
+        date = datetime.date.fromordinal(min(max(o, 1), 3652059))
     else:
         date = datetime.date.fromordinal(rng.randint(1, 3652059))
     if rng.random() < 0.6:
@@ -343,3 +342,86 @@ def base_render_lines(sepbyte=84):
             lines.append(render_line(df, tf, of, sepbyte, f[0], f[1], f[2], hh, mm, ss, neg, oh, om, frac))
             meta.append((bi, df, tf, of, len(frac)))
     return lines, meta
+
+
+# ---- the translated scanners (Generated/IsoKernels.lean, ops isogen.*) against the implementation
+def _canon_comp(c):
+    if c is None:
+        return "-"
+    if isinstance(c, int):
+        return str(c)
+    return canon_tz(c).replace(" ", ":")
+
+
+def impl_idate(b):
+    """isoparser._parse_isodate on bytes: 'ok y m d pos'"""
+    try:
+        comps, pos = get_parser(None)._parse_isodate(b)
+        return "ok %s %d" % (" ".join(_canon_comp(c) for c in comps), pos)
+    except Exception as ex:
+        return canon_exc(ex)
+
+
+def impl_itime(b):
+    """isoparser._parse_isotime on bytes: 'ok h m s us tz' (raw components)"""
+    try:
+        return "ok " + " ".join(_canon_comp(c) for c in get_parser(None)._parse_isotime(b))
+    except Exception as ex:
+        return canon_exc(ex)
+
+
+def impl_digits(b, w):
+    import importlib
+    mod = importlib.import_module("dateutil.parser.isoparser")
+    try:
+        return "ok %d" % mod._parse_digits(b, w)
+    except Exception as ex:
+        return canon_exc(ex)
+
+
+def gen_requests(entry, sep, zero, kind, s):
+    """(driver request for the translated function, implementation result) or None"""
+    if entry == "isoparse":
+        return "isogen.parse %s %s%s" % (sep_arg(sep), vlib.hexs(s), " b" if kind == "bytes" else ""), None
+    try:
+        b = s.encode("ascii") if isinstance(s, str) else s
+    except UnicodeEncodeError:
+        return None
+    if entry == "tz":
+        return "isogen.tz %d %s" % (int(zero), vlib.hexs(b)), impl_tz(b, zero, "bytes")
+    if entry == "date":
+        return "isogen.idate %s" % vlib.hexs(b), impl_idate(b)
+    if entry == "time":
+        return "isogen.itime %s" % vlib.hexs(b), impl_itime(b)
+    return None
+
+
+def validate_translation(ctx, items, impl_results):
+    """items: (entry, sep, zero, kind, string); impl_results: the public entry's result per item.
+    The generated functions must agree with the implementation on every item."""
+    gen_report = (ctx.lean.gen_report.get("kernels") or {}).get("IsoKernels") or {}
+    if not gen_report.get("ok"):
+        ctx.note("IsoKernels not regenerated (%s): translated-function validation skipped" % gen_report.get("error"))
+        return
+    reqs, exp, tags = [], [], []
+    for (entry, sep, zero, kind, s), r in zip(items, impl_results):
+        g = gen_requests(entry, sep, zero, kind, s)
+        if g is None:
+            continue
+        reqs.append(g[0]); exp.append(r if g[1] is None else g[1]); tags.append((entry, sep, zero, kind, s))
+    # _parse_digits directly
+    seen = set()
+    for (entry, sep, zero, kind, s) in items:
+        if isinstance(s, str) and s.isascii() and len(s) <= 6 and s not in seen:
+            seen.add(s)
+            for w in (1, 2, 3, 4):
+                b = s.encode("ascii")
+                reqs.append("isogen.digits %d %s" % (w, vlib.hexs(b))); exp.append(impl_digits(b, w))
+                tags.append(("digits", None, True, "bytes", s))
+    got = ctx.driver(reqs)
+    for q, e, g, tag in zip(reqs, exp, got, tags):
+        if e != g:
+            ctx.mismatch(q.split()[0], {"entry": tag[0], "sep": tag[1], "zero_as_utc": tag[2], "kind": tag[3],
+                                        "string": tag[4], "request": q}, e, g)
+    ctx.traces += len(reqs)
+    ctx.count("translator_validation_cases", len(reqs))
